@@ -117,6 +117,8 @@ theorem C08_dwarf_step_stack_relocation_partial (row : Row) (sp fp curRa d : Nat
     | valOffset n => rfl
     | register r => rfl
     | other => rfl
+    | exprReg _ _ => rfl
+    | valExprReg _ _ => rfl
   have go : ∀ cfa : Int, Relocated σ d (dwarfSpec.go row fp curRa mem cfa)
       (dwarfSpec.go row (fp + d) curRa mem' (cfa + d)) := by
     intro cfa
@@ -126,6 +128,8 @@ theorem C08_dwarf_step_stack_relocation_partial (row : Row) (sp fp curRa d : Nat
     | valOffset n => simp [Relocated]
     | register r => simp [Relocated]
     | other => simp [Relocated]
+    | exprReg _ _ => simp [Relocated]
+    | valExprReg _ _ => simp [Relocated]
     | sameValue =>
       simp only [reg]
       cases specReg mem cfa fp row.fp with
